@@ -46,9 +46,45 @@ fn emitted_files(ctx: &mut Ctx) {
     }
 }
 
+/// files written by the independent writer, of every constant-pool size 0..=600 (beyond the 8 KiB
+/// read buffer from n = 330 on), loaded by the real command line: the program they denote runs
+fn loaded_files(ctx: &mut Ctx) {
+    ctx.stage("independently written files of every pool size, loaded by the command line (processes)");
+    let exe = ctx.exe.clone();
+    for n in 0..=600usize {
+        if ctx.take().is_none() { continue }
+        // B's own encoding of the program: n string constants, one method of 2n+1 instructions
+        let mut consts: Vec<codec::Const> = vec![codec::Const::Null];
+        let mut code: Vec<codec::Ins> = vec![codec::Ins::Lit(0)];
+        for i in 0..n {
+            consts.push(codec::Const::Str(format!("row {} of the sweep é\n", i)));
+            code.push(codec::Ins::Drop); code.push(codec::Ins::Print(consts.len() as u16 - 1, 0));
+        }
+        consts.push(codec::Const::Str("λ:".to_string()));
+        let name = consts.len() as u16 - 1;
+        consts.push(codec::Const::Method { name, arity: 0, locals: 0, code });
+        let p = codec::Prog { entry: consts.len() as u16 - 1, consts, globals: vec![] };
+        let bytes = codec::write(&p);
+        let f = cli::write_file(&ctx.scratch, "w.bc", &bytes);
+        let expected: String = (0..n).map(|i| format!("row {} of the sweep é\n", i)).collect();
+        let e = cli::simple(&exe, &["execute", f.to_str().unwrap()]);
+        let e2 = cli::run(&exe, &["execute"], Some(&bytes), None, &[], std::time::Duration::from_secs(20));
+        ctx.count("programs", 1); ctx.count("cli_pipelines", 2);
+        ctx.nontrivial(&n.to_le_bytes());
+        for (how, r) in [("file", &e), ("stdin", &e2)] {
+            if !r.ok() || r.stdout != expected.as_bytes() {
+                ctx.violation("layout/file-not-loaded-as-the-program-it-denotes", "`fml execute` of an independently written file does not behave as the program the file denotes",
+                    json!({"case": format!("{} print instructions, {} constants, {} bytes", n, p.consts.len(), bytes.len()), "first_bytes_hex": codec::hex(&bytes[..bytes.len().min(8)]),
+                           "input": how, "exit": r.code, "stderr": r.err().chars().take(300).collect::<String>(), "cli": "fml execute w.bc"}));
+            }
+        }
+    }
+}
+
 pub fn run(ctx: &mut Ctx) {
     bcprops::golden_files(ctx, Which::C04);
     emitted_files(ctx);
+    loaded_files(ctx);
     bcprops::direct_programs(ctx, Which::C04, if ctx.quick() { 3 } else { 4 });
     let (syn_n, sem_n) = if ctx.quick() { (4, 3) } else { (5, 4) };
     bcprops::compiler_outputs(ctx, Which::C04, syn_n, sem_n);
